@@ -63,6 +63,16 @@ def check_cursor(ctx, rule, cl, fn, hdr, size_at, label):
                fail=f"a path to the next iteration ({kind}) advances the cursor by `{adv}` instead of {hdr} + size "
                     f"(path facts: {why}): following records are mis-framed or re-read")
         ctx.sample({"path": kind, "facts": why, "advance": repr(adv), "expected": repr(want)})
+    # the loop is left early only for want of data: a `break` whose path does not say "fewer bytes left than a record header" stops at a
+    # record that could have been skipped, and every record behind it is lost
+    for st in cl.info["breaks"]:
+        facts = atoms(st.pc)
+        short = any(f[0] == "cmp" and f[1] in ("<", "<=") and call_is(strip(f[2]), "len") and is_const(f[3]) and isinstance(f[3][1], int) and f[3][1] <= hdr
+                    and any(y == cl.lv for y in subterms(strip(f[2])[2][0])) for f in facts)
+        why = [show(f)[:60] for f in facts][-2:]
+        ctx.ob(rule, fn.qual, short, f"{label} loop is left early only when fewer than {hdr} bytes remain", func=fn.qual, file=file,
+               construct=f"break when {why[-1] if why else 'always'}",
+               fail=f"the {label} loop stops early on a path that does not say the data is exhausted ({why}): the records after that point are never interpreted")
     return n
 
 
